@@ -571,8 +571,10 @@ class Text(Input):
     def _clean(self, value):
         try:
             fvalue = float(value)
-            # Same missing value encodings as for NetCDF files (verif.util.clean)
-            if fvalue == -999 or fvalue > 1e30:
+            # Same missing value encodings as for NetCDF files (verif.util.clean). A token spelled nan
+            # gives the same np.nan object as -999 and NA do: float("nan") is a new object on every
+            # row, and the rows are stored under keys that contain the id, which must compare equal
+            if fvalue == -999 or fvalue > 1e30 or np.isnan(fvalue):
                 fvalue = np.nan
             return fvalue
         except ValueError:
